@@ -39,5 +39,20 @@ for f in sorted(os.listdir(V + '/evidence')):
     rows.append('| %s | %s | %s | %s | %s | %s | %s | %s |' % (e['property_id'], e['tier'], c.get('states'), c.get('transitions'), c.get('traces_validated_against_impl'),
                 c.get('distinct_nontrivial'), ', '.join('%s x%s' % kv for kv in c.get('known_findings_hit', {}).items()) or '-', e['wall_s']))
 block('EVIDENCE', '\n'.join(rows))
+# ---- what each check enumerates (the `rule` strings the checks put into their evidence)
+import sys
+sys.path.insert(0, V)
+from mbt import props
+lines = []
+for p in sorted(props.CHECKS):
+    q = props.CHECKS[p]('quick', 0)
+    t = props.CHECKS[p]('thorough', 0) if p != 'C09' else None
+    lines.append('**%s** - stages: %s.' % (p, ', '.join('`%s`' % st.name for st in q['stages'])))
+    lines.append('quick: ' + q['rule'])
+    if t and t['rule'] != q['rule']:
+        lines.append('')
+        lines.append('thorough: ' + t['rule'] + (' (plus the same scenarios with randomised class representatives)' if any(st.name.endswith('_rand') for st in t['stages']) else ''))
+    lines.append('')
+block('RULES', '\n'.join(lines))
 open(V + '/DESIGN.md', 'w').write(design)
 print('tables written')
